@@ -128,6 +128,35 @@ def gaussian_fit(ctype, D=2, N=3, nosal=False):
                         fields=['mean', 'covariance'])
 
 
+def from_cov_rel(cov_norm, floor, D=2):
+    """cACG parameters from a stack of covariances: eigenvalue flooring relative to the slice's own largest eigenvalue"""
+    from pb_bss.distribution import complex_angular_central_gaussian as m
+
+    def make_full(B):
+        return {'cov': herm_pd(B, 'c', D, (L,))}
+
+    def call(a):
+        mod = m.ComplexAngularCentralGaussian.from_covariance(a['cov'], eigenvalue_floor=floor, covariance_norm=cov_norm)
+        return {'lam': mod.covariance_eigenvalues}
+
+    return rel_instance('from_covariance-%s-floor%g' % (cov_norm, floor), DN + 'complex_angular_central_gaussian:ComplexAngularCentralGaussian.from_covariance',
+                        make_full, call, timeout=30.0)
+
+
+def ccsg_singleton(D=2, N=1):
+    """complex Gaussian log_pdf with a singleton inner leading axis (the K = 1 class-axis layout) and single frames"""
+    from pb_bss.distribution import complex_circular_symmetric_gaussian as m
+
+    def make_full(B):
+        return {'cov': herm_pd(B, 'S', D, (L, 1)), 'y': B.cplx('y', (L, 1, N, D))}
+
+    def call(a):
+        return {'log_pdf': m.ComplexCircularSymmetricGaussian(covariance=a['cov']).log_pdf(a['y'])}
+
+    return rel_instance('log_pdf-singleton-axis-N%d' % N, DN + 'complex_circular_symmetric_gaussian:ComplexCircularSymmetricGaussian', make_full, call,
+                        patches=lambda: [(symnp.SolveStub, 'fork_singular', False)])
+
+
 def ccsg_both(D=2, N=2, nosal=False):
     from pb_bss.distribution import complex_circular_symmetric_gaussian as m
 
@@ -430,6 +459,11 @@ def instances(tier):
     out.append(ccsg_both(nosal=True))
     out.append(vmf_both(nosal=True))
     out.append(watson_both(nosal=True))
+    out.append(from_cov_rel(False, 1e-3))
+    out.append(from_cov_rel('trace', 1e-3))
+    out.append(from_cov_rel('eigenvalue', 1e-3))
+    out.append(ccsg_singleton(2, 1))
+    out.append(ccsg_singleton(2, 2))
     out.append(cacg_both(iterations=1))
     out.append(cacg_both(iterations=2))
     out.append(affiliation_rel())
